@@ -91,6 +91,7 @@ func opDuplicate(g *G) (interface{}, []uint64, int, interface{}) {
 	if err == nil {
 		out["g"] = dumpGenome(dup)
 		out["shared"] = sharesState(src, dup)
+		out["genesis"] = genesisClass(dup)
 	}
 	return map[string]interface{}{"g": before, "newId": newId, "family": family, "malformed": mal}, nil, 0, out
 }
